@@ -87,9 +87,23 @@ void World::exec_track_op(const Step& s)
     StepEffect e;
     e.op = s.op;
     e.fault = s.fault;
+    // one write in twelve re-uses the path of another live track: where the schema makes paths unique the
+    // call then fails for real in the middle of its statements (no injected fault) and must change nothing
+    auto maybe_collide = [&](dj::track_snapshot& snap, int64_t self) {
+        if ((s.vseed >> 20) % 12 != 0)
+            return;
+        for (auto& kv : prev.track)
+            if (kv.first != self && kv.second.have_snapshot && kv.second.snapshot.relative_path && model.tracks.count(kv.first))
+            {
+                snap.relative_path = kv.second.snapshot.relative_path;
+                probes.hit("path_collision_attempted");
+                return;
+            }
+    };
     if (s.op == "create_track")
     {
         auto snap = gen_snapshot(s.vseed, s.size, plan.cfg.gf, ++uniq);
+        maybe_collide(snap, 0);
         std::optional<dj::track> t;
         e.prop = "C01";
         e.out = call(s.fault, [&] { t = db->create_track(snap); });
@@ -133,6 +147,7 @@ void World::exec_track_op(const Step& s)
     if (s.op == "update")
     {
         auto snap = gen_snapshot(s.vseed, s.size, plan.cfg.gf, ++uniq);
+        maybe_collide(snap, slot.id);
         e.prop = "C01";
         e.out = call(s.fault, [&] { slot.h->update(snap); });
         note("update track " + std::to_string(slot.id) + (e.out.threw ? " -> threw " + e.out.exc + ": " + e.out.what : " -> ok"));
@@ -232,6 +247,8 @@ void World::exec_track_op(const Step& s)
         auto donor = gen_snapshot(s.vseed, std::max(1, s.size), plan.cfg.gf, ++uniq);
         if (!donor.relative_path)
             donor.relative_path = "set/path" + std::to_string(uniq) + ".mp3";
+        if (field == F_RELATIVE_PATH)
+            maybe_collide(donor, slot.id);
         e.prop = "C06";
         std::string fname = field_name(field);
         e.op = "set_" + fname;
